@@ -134,7 +134,7 @@ def applyLeading (lead : Str) (lots : List Str) (through : Int) : Except PyErr (
   if n > lots.length then .error .indexError else
   .ok (lots.mapIdx (fun i l => if i < n then lead ++ " of ".toList ++ l else l))
 
-def tractParse (origText : Str) (a : ParseArgs) (inherited : Flags) : Except PyErr ParseResult := do
+def tractParseRaw (origText : Str) (a : ParseArgs) (inherited : Flags) : Except PyErr ParseResult := do
   let some text := scrubAliquots origText a.cleanQQ
     | return { text := origText, lots := [], qqs := [], lotAcres := [], aliquotsWhole := [], flags := inherited, diverged := true }
   let some (rem1, lotBlocks) := extractLots (text.length + 2) text []
@@ -180,6 +180,17 @@ def tractParse (origText : Str) (a : ParseArgs) (inherited : Flags) : Except PyE
     let flag := "dup_qq<".toList ++ pyJoin ",".toList dupQQs ++ ">".toList
     fl := { fl with w := fl.w ++ [.str flag], wl := fl.wl ++ [.tup [.str flag, .str flag]] }
   return { text := text, lots := lots, qqs := qqs, lotAcres := lotAcres, aliquotsWhole := aliquotsWhole, flags := fl, diverged := dv }
+
+def Flags.append (a b : Flags) : Flags := { w := a.w ++ b.w, wl := a.wl ++ b.wl, e := a.e ++ b.e, el := a.el ++ b.el }
+
+/-- what a TractParser computes from the text and settings alone (its *own* flags) -/
+def tractParseOwn (origText : Str) (a : ParseArgs) : Except PyErr ParseResult := tractParseRaw origText a {}
+
+/-- `TractParser(text, …, parent)`: the parent's (inherited) flags come first, the parser only ever appends -/
+def tractParse (origText : Str) (a : ParseArgs) (inherited : Flags) : Except PyErr ParseResult :=
+  match tractParseOwn origText a with
+  | .error e => .error e
+  | .ok r => .ok { r with flags := inherited.append r.flags }
 
 /-- `Tract.ilots`: `int(lt.split('L')[-1])` -/
 def ilots (lots : List Str) : Except PyErr (List Int) :=
